@@ -226,11 +226,11 @@ Proof.
 Qed.
 
 (* ---------- flush: acknowledgement and sync frames touch neither the frame queue nor the sender ---------- *)
-Definition same_core (h h' : hc) : Prop := h_fq h' = h_fq h /\ h_snd h' = h_snd h /\ h_src h' = h_src h.
+Definition same_core (h h' : hc) : Prop := h_fq h' = h_fq h /\ h_snd h' = h_snd h /\ h_src h' = h_src h /\ h_rcv h' = h_rcv h.
 
 Lemma same_core_refl h : same_core h h. Proof. repeat split. Qed.
 Lemma same_core_trans a b c : same_core a b -> same_core b c -> same_core a c.
-Proof. intros (A1 & A2 & A3) (B1 & B2 & B3). repeat split; congruence. Qed.
+Proof. intros (A1 & A2 & A3 & A4) (B1 & B2 & B3 & B4). repeat split; congruence. Qed.
 
 Lemma afe_finalize_core a : same_core (as_h a) (as_h (afe_finalize a)).
 Proof. unfold afe_finalize. destruct (as_ip a); [|apply same_core_refl]. cbn [as_h]. repeat split. Qed.
@@ -285,7 +285,7 @@ Proof.
 Qed.
 
 Lemma same_core_inv h h' : same_core h h' -> HcInv h -> HcInv h'.
-Proof. intros (A & B & _). apply HcInv_ext; assumption. Qed.
+Proof. intros (A & B & _ & _). apply HcInv_ext; assumption. Qed.
 
 Lemma hc_flush_inv h h' out : hc_flush h = Ok (h', out) -> HcInv h -> HcInv h'.
 Proof.
